@@ -69,6 +69,7 @@ def handlers : List (String × (Json → Except String Json)) := [
   ("C01.transpose_dia", Qv.Drv.C01.transposeDiaJ),
   ("C01.iadd_dense", Qv.Drv.C01.iaddDenseJ),
   ("C01.matmul_csr_dense", Qv.Drv.C01.matmulCsrDenseJ),
+  ("C01.matmul_dia_dense", Qv.Drv.C01.matmulDiaDenseJ),
   ("C01.dia_of_dense", Qv.Drv.C01.diaOfDenseJ)
 ]
 
